@@ -51,6 +51,7 @@ _Bool IORA_TRUE;
 int iora_exc;
 #define EXC_NONE 0
 #define IORA_CATCH_ENTER() (iora_exc_caught = iora_exc, iora_exc = EXC_NONE)
+#define IORA_RETHROW() (iora_exc = iora_exc_caught)      /* `throw;` inside a handler */
 int iora_exc_caught;
 
 /* nondeterminism */
